@@ -319,3 +319,35 @@ def stderr_blocks(B, env, cc, direction):
         return lambda x, y: B.sqrt(B.rd(var[a][b], x, y) / B.rd(Nt[a][b], x, y))
 
     return blocks_from(B, env, cell(0, 0), cell(0, 1), cell(1, 0), cell(1, 1))
+
+
+# ---- C12 -------------------------------------------------------------------------------
+
+
+def zscore_cell(B, n, r, c, N):
+    """adjusted standardized residual from the cell's own count, row, column, table base"""
+    e = r * c / N
+    return (n - e) / B.sqrt(e * (1 - r / N) * (1 - c / N))
+
+
+def zscore_blocks(B, env, cc, defective):
+    cnt_b = count_blocks(B, env, cc)
+    rb, cb, tb = row_base_blocks(B, env, cc), column_base_blocks(B, env, cc), table_base_blocks(B, env, cc)
+
+    def cell(a, b):
+        def f(x, y):
+            z = zscore_cell(
+                B, B.rd(cnt_b[a][b], x, y), B.rd(rb[a][b], x, y), B.rd(cb[a][b], x, y), B.rd(tb[a][b], x, y)
+            )
+            return B.ite(defective, B.NaN(), z)
+
+        return f
+
+    return blocks_from(B, env, cell(0, 0), cell(0, 1), cell(1, 0), cell(1, 1))
+
+
+def pvalue_blocks(B, env, z_blocks):
+    def cell(a, b):
+        return lambda x, y: 2 * (1 - B.Phi(abs(B.rd(z_blocks[a][b], x, y))))
+
+    return blocks_from(B, env, cell(0, 0), cell(0, 1), cell(1, 0), cell(1, 1))
